@@ -692,6 +692,18 @@ def neighbours(rng, f, evs):
         if rng.random() < 0.3:
             tags.append([rng.choice(QNAMES), rng.choice(QVALS)])
         out.append(grind_event(who, kind, ts, tags, rng.choice([None, None, 0x00, 0xFF])))
+    # a single requested value: its proper prefixes / suffixes / the empty string, on an event that satisfies every other condition
+    # (a residual test written as a substring test - `v in "abc"` - would let them through)
+    for name, vals in tagconds:
+        if len(vals) == 1 and isinstance(vals[0], str) and len(vals[0]) >= 2:
+            v = vals[0]
+            who = next((i for i, p in enumerate(env.PUBS) if p in (f.get("authors") or [])), 0)
+            kind = (f.get("kinds") or [1])[0]
+            if kind in (0, 3, 5) or 10000 <= kind < 40000 or kind < 0:
+                kind = 1
+            others = [[n2, v2[0]] for n2, v2 in tagconds if n2 != name and v2]
+            for nv in (v[:-1], v[1:], ""):
+                out.append(grind_event(who, kind, rng.choice(tss), others + [[name, nv]], None))
     # half-matching neighbours, NEWER than everything the filter asks for: they satisfy all conditions but one, so they sit
     # in front of the matching events in whichever index serves the filter and only the residual test rejects them
     conds = [k for k in f if k in ("kinds", "authors") or k.startswith("#")]
@@ -744,8 +756,14 @@ def suite_frame(tier, seed):
         for _ in range(n_hist):
             evs = gen_history(rng, rng.choice([2, 5, 9, 14]), delegation=False)
             st, _ = await load_store(evs, max_limit=BIG)
-            for _ in range(per):
-                raw = big_filter(rng, evs)
+            directed = []
+            tagged = [(e, tg) for e in evs for tg in e["tags"] if len(tg) >= 2 and isinstance(tg[0], str) and len(tg[0]) == 1 and tg[0].isalpha()
+                      and isinstance(tg[1], str) and len(tg[1]) >= 2 and "\x00" not in tg[1]]
+            if tagged:
+                e, tg = rng.choice(tagged)
+                directed = [{"kinds": [e["kind"]], "#" + tg[0]: [tg[1]], "limit": BIG}, {"authors": [e["pubkey"]], "#" + tg[0]: [tg[1]], "limit": BIG}]
+            for j_ in range(per + len(directed)):
+                raw = directed[j_ - per] if j_ >= per else big_filter(rng, evs)
                 try:
                     q = wire_filter(validate_filter(raw))
                 except Exception:
